@@ -149,6 +149,7 @@ async fn run_async(ctx: &mut Ctx) {
         let action = ctx.tape.choose(13);
         let mut user_add_now: Option<[u8; 32]> = None;
         let mut unauthenticated_query: Option<([u8; 32], Option<String>)> = None;
+        let mut claimed_socket: Option<(NodeId, std::net::SocketAddr)> = None;
         match action {
             12 => {
                 // an undecryptable packet claiming to come from node `id` arrives from some address (its own or
@@ -165,6 +166,9 @@ async fn run_async(ctx: &mut Ctx) {
                 let wref = discv5::verif::WhoAreYouRef::verif_new(discv5::verif::NodeAddress { node_id: nid, socket_addr: from }, [7u8; 12]);
                 sw.emit(HandlerOut::WhoAreYou(wref)).await;
                 unauthenticated_query = Some((nid.raw(), before));
+                if from != peer_addr(id) {
+                    claimed_socket = Some((nid, from));
+                }
             }
             0..=3 => {
                 // session established (the handler only reports records whose address is absent or equals the source)
@@ -293,6 +297,17 @@ async fn run_async(ctx: &mut Ctx) {
         sw.settle().await;
         for m in sw.take_in() {
             if let HandlerIn::Request(contact, req) = m {
+                // a socket that only an unauthenticated packet named must not be dialled as the claimed node: whoever
+                // sits there can answer the dial with a bare WHOAREYOU and is then treated as that node
+                if let Some((cid, caddr)) = claimed_socket {
+                    if contact.node_id() == cid && contact.socket_addr() == caddr {
+                        ctx.fail(
+                            "c01.unauthenticated-claim-dialled-as-node",
+                            format!("after an undecryptable packet claiming {} from {caddr} (not an address of its record) the service sent it a request ({}) at that socket", short(&cid), req.body),
+                            &[],
+                        );
+                    }
+                }
                 let Some(peer) = ident_of(&contact.node_id()) else { continue };
                 match req.body {
                     RequestBody::Ping { .. } => pending_ping.push((req.id, peer, contact.node_address())),
